@@ -27,18 +27,15 @@ Requests(k) == { r \in {0, k - 1, k, k + 1, k + 5} : r >= 0 /\ r <= 8 }
 \* which of the requested strings get a destination (1) and which only report their length (0):
 \* every pattern for up to 3 requests, six characteristic ones beyond
 DestPats(req) ==
-  IF req <= 3 THEN { Mat(f) : f \in [1..req -> {0, 1}] }
-  ELSE { Mat([i \in 1..req |-> 0]), Mat([i \in 1..req |-> 1]), Mat([i \in 1..req |-> i % 2]), Mat([i \in 1..req |-> (i + 1) % 2]),
+  IF req <= 3 THEN { Mat(f) : f \in [1..req -> {0, 1, 2}] }             \* (2: the shared skip descriptor, see VssCodec.UnpackResult)
+  ELSE { Mat([i \in 1..req |-> IF i = req THEN 1 ELSE 2]), Mat([i \in 1..req |-> IF i % 2 = 1 THEN 2 ELSE 1]), Mat([i \in 1..req |-> 0]), Mat([i \in 1..req |-> 1]), Mat([i \in 1..req |-> i % 2]), Mat([i \in 1..req |-> (i + 1) % 2]),
          Mat([i \in 1..req |-> IF i = 1 THEN 1 ELSE 0]), Mat([i \in 1..req |-> IF i = 1 THEN 0 ELSE 1]) }
 
 SInit == n = 0 /\ lst \in (Lists \cup Specials)
          /\ mem = << >> /\ hb = << >> /\ out = Sentinel /\ step = << >>
          /\ sstep = SOp("start", 0, << >>) @@ [list |-> << >>, blob |-> << >>, count |-> 0, res |-> << >>]
 \* result of unpacking `req` strings: for i <= min(req, count): [len, bytes]; entries beyond the count are left untouched
-UnpackRes(blob, req, wd) ==
-  LET u == Unpack(blob) IN
-  [i \in 1..req |-> IF i <= Len(u) THEN [len |-> Len(u[i]), bytes |-> IF wd[i] = 1 THEN u[i] ELSE << >>, touched |-> 1]
-                    ELSE [len |-> 0, bytes |-> << >>, touched |-> 0]]
+UnpackRes(blob, req, wd) == UnpackResult(blob, req, wd)
 SNext ==
   /\ n' = n + 1 /\ UNCHANGED <<lst, mem, hb, out, step>>
   /\ LET blob == Pack(lst) IN
